@@ -1,11 +1,640 @@
 package main
 
+// Counterexample replay: turn the solver model of a failed obligation into a Go
+// test that calls the real function, and check that the failure shows up at run time.
+
+import (
+	"bytes"
+	"context"
+	"encoding/json"
+	"flag"
+	"fmt"
+	"go/format"
+	"go/types"
+	"os"
+	"os/exec"
+	"path/filepath"
+	"regexp"
+	"sort"
+	"strconv"
+	"strings"
+	"time"
+
+	"golang.org/x/tools/go/packages"
+	"golang.org/x/tools/go/ssa"
+)
+
 type replayResult struct {
 	payload    map[string]any
 	reproduced bool
 }
 
+const replayTestFile = "zz_govc_replay_test.go"
+
+// replayKind maps an obligation kind to the way it is reproduced ("" = not attempted).
+func replayKind(kind string) string {
+	switch kind {
+	case "index", "nil", "slice", "divzero", "panic", "makeslice", "typeassert", "nilmap":
+		return "panic"
+	case "assert":
+		return "assert"
+	case "pre":
+		return "pre"
+	case "ensures":
+		return "ensures"
+	}
+	return ""
+}
+
+type rclause struct{ text, goExpr string }
+
+// rtarget is a function that a replay test calls, with the executable parts of its contract.
+type rtarget struct {
+	ctx     *Ctx
+	u       *Unit
+	fn      *ssa.Function
+	pkg     *packages.Package
+	absRepo string
+	pkgdir  string
+	pnames  []string
+	mode    string // panic | assert | pre | ensures | contract
+	tr      *clauseTr
+	reqs    []rclause
+	ens     []rclause
+	notes   []string
+	imports map[string]string
+	impUsed map[string]bool
+}
+
+func (t *rtarget) note(format string, a ...any) { t.notes = append(t.notes, fmt.Sprintf(format, a...)) }
+
+// newTarget prepares a function for replay; reason != "" if it cannot be called from a test.
+func newTarget(ctx *Ctx, u *Unit, mode string) (t *rtarget, reason string) {
+	fn := u.fn
+	pkg := ctx.pkgOf(fn)
+	switch {
+	case pkg == nil || pkg.Types == nil:
+		return nil, "package of the function not found"
+	case fn.Parent() != nil || fn.Synthetic != "":
+		return nil, fn.Name() + " is not a source-level named function"
+	case fn.TypeParams().Len() > 0 || len(fn.TypeArgs()) > 0:
+		return nil, "generic function"
+	}
+	absRepo, err := filepath.Abs(ctx.repoDir)
+	if err != nil {
+		return nil, err.Error()
+	}
+	srcFile := ctx.fset.Position(fn.Pos()).Filename
+	pkgdir, err := filepath.Rel(absRepo, filepath.Dir(srcFile))
+	if err != nil || strings.HasPrefix(pkgdir, "..") {
+		return nil, "source file " + srcFile + " is outside the repository"
+	}
+	t = &rtarget{ctx: ctx, u: u, fn: fn, pkg: pkg, absRepo: absRepo, pkgdir: filepath.ToSlash(pkgdir), mode: mode,
+		imports: map[string]string{}, impUsed: map[string]bool{}}
+	for i, p := range fn.Params {
+		n := p.Name()
+		if n == "" || n == "_" {
+			n = fmt.Sprintf("govcBlank%d", i)
+		}
+		t.pnames = append(t.pnames, n)
+	}
+	for _, r := range append([]string{"fmt", "testing", "reflect", "unsafe", "strings", "errors"}, t.pnames...) {
+		t.impUsed[r] = true
+	}
+	t.tr = newClauseTr(ctx, pkg, t.pnames)
+	if len(u.errs) > 0 {
+		t.note("the function left the verifiable subset; the model may be imprecise")
+	}
+	if mode == "assert" {
+		if obj, ok := fn.Object().(*types.Func); ok {
+			if decl, dp := ctx.funcDecl(obj); decl != nil && decl.Body != nil {
+				if stub := ctx.replayStub(dp, decl.Body, map[types.Object]bool{}); stub != "" {
+					return nil, "the lemma uses " + stub + ", which is uninterpreted in proofs and only a stub in Go"
+				}
+			}
+		}
+	}
+	if u.con != nil {
+		for _, r := range u.con.Requires {
+			oldBefore := len(t.tr.oldUsed)
+			g, err := t.tr.translate(r.Text)
+			if err != nil || len(t.tr.oldUsed) != oldBefore {
+				t.note("precondition %q is not executable and is not checked on the candidate input", compact(r.Text))
+				continue
+			}
+			t.reqs = append(t.reqs, rclause{r.Text, g})
+		}
+	}
+	return t, ""
+}
+
+// addEnsures makes a postcondition part of the test; returns an error text if it is not executable.
+func (t *rtarget) addEnsures(cl *Clause) string {
+	g, err := t.tr.translate(cl.Text)
+	if err != nil {
+		return err.Error()
+	}
+	t.ens = append(t.ens, rclause{cl.Text, g})
+	return ""
+}
+
+// rcand is one concrete input of a target.
+type rcand struct {
+	stmts  []string
+	pexprs []string
+	inputs map[string]any
+	notes  []string
+	log    []string
+	label  string
+}
+
+// candidate extracts one concrete input from the models of m's query.
+func (t *rtarget) candidate(m *rmodel) (c *rcand, reason string) {
+	fn, u := t.fn, t.u
+	var strParams []string
+	for _, p := range fn.Params {
+		if pv, ok := u.topParams[p.Name()]; ok {
+			m.addNice(pv.T, p.Type(), 0)
+			if isString(p.Type()) {
+				strParams = append(strParams, pv.T)
+			}
+		}
+	}
+	m.addStrDistinct(strParams)
+	var gen *inputGen
+	pexprs := make([]string, len(fn.Params))
+	done := false
+	for round := 0; round < 16; round++ {
+		gen = newInputGen(m, u, t.pkg.Types, t.imports, t.impUsed)
+		for i, p := range fn.Params {
+			pv, ok := u.topParams[p.Name()]
+			if !ok {
+				gen.abort = "parameter " + p.Name() + " has no symbolic value"
+				break
+			}
+			pexprs[i] = gen.expr(pv.T, p.Type(), 0)
+		}
+		if gen.abort != "" {
+			break
+		}
+		if len(m.pending) == 0 {
+			done = true
+			break
+		}
+		if !m.flush() {
+			break
+		}
+	}
+	if !done {
+		switch {
+		case gen != nil && gen.abort != "":
+			return nil, "not replayable: " + gen.abort
+		case m.failed != "":
+			return nil, "no concrete input: " + m.failed
+		}
+		return nil, "no concrete input: object graph not closed after 16 solver rounds"
+	}
+	c = &rcand{stmts: gen.statements(), pexprs: pexprs, inputs: map[string]any{}, log: m.log}
+	if m.noquant {
+		c.notes = append(c.notes, "values come from the model-finding variant of the query (universally quantified parts instantiated on small ranges or dropped): the input is only a candidate, validated by the run")
+	}
+	c.notes = append(c.notes, gen.noteList()...)
+	for name := range m.declared {
+		if strings.HasPrefix(name, "G_") {
+			c.notes = append(c.notes, "package-level variables keep their initial values in the replay (model value of "+name+" ignored)")
+			break
+		}
+	}
+	for i := range fn.Params {
+		c.inputs[t.pnames[i]] = trunc(pexprs[i], 3000)
+	}
+	gen.describe(c.inputs)
+	return c, ""
+}
+
+// source generates the test file for the given candidate inputs.
+func (t *rtarget) source(cands []*rcand, title string) (string, string) {
+	fn := t.fn
+	gen := newInputGen(nil, t.u, t.pkg.Types, t.imports, t.impUsed)
+	var b strings.Builder
+	w := func(format string, a ...any) { fmt.Fprintf(&b, format, a...) }
+	sig := fn.Signature
+	nres := sig.Results().Len()
+	var ptypes, rtypes []string
+	for _, p := range fn.Params {
+		ptypes = append(ptypes, gen.typeStr(p.Type()))
+	}
+	for i := 0; i < nres; i++ {
+		rtypes = append(rtypes, gen.typeStr(sig.Results().At(i).Type()))
+	}
+	w("var govcCandidates = []func() (bool, string){")
+	for k := range cands {
+		w("govcReplayInputs%d, ", k)
+	}
+	w("}\n\n")
+	for k, c := range cands {
+		if c.label != "" {
+			w("// %s\n", strings.ReplaceAll(c.label, "\n", " "))
+		}
+		w("func govcReplayInputs%d() (reproduced bool, detail string) {\n", k)
+		w("\tdefer func() {\n\t\tif r := recover(); r != nil {\n\t\t\treproduced, detail = false, fmt.Sprintf(\"building the inputs panicked: %%v\", r)\n\t\t}\n\t}()\n")
+		for _, s := range c.stmts {
+			w("\t%s\n", s)
+		}
+		var argNames []string
+		for i := range fn.Params {
+			w("\tgovcP%d := %s\n", i, c.pexprs[i])
+			argNames = append(argNames, fmt.Sprintf("govcP%d", i))
+		}
+		w("\treturn govcReplayBody(%s)\n}\n\n", strings.Join(argNames, ", "))
+	}
+	var plist []string
+	for i := range fn.Params {
+		plist = append(plist, t.pnames[i]+" "+ptypes[i])
+	}
+	w("func govcReplayBody(%s) (reproduced bool, detail string) {\n", strings.Join(plist, ", "))
+	for _, n := range t.pnames {
+		w("\t_ = %s\n", n)
+	}
+	for _, r := range t.reqs {
+		w("\tif govcOK, govcP := govcEval(func() bool { return %s }); govcP != nil {\n", r.goExpr)
+		w("\t\treturn false, fmt.Sprintf(\"evaluating precondition %%s panicked: %%v\", %q, govcP)\n", compact(r.text))
+		w("\t} else if !govcOK {\n\t\treturn false, \"candidate input violates precondition: \" + %q\n\t}\n", compact(r.text))
+	}
+	var olds []string
+	for n := range t.tr.oldUsed {
+		olds = append(olds, n)
+	}
+	sort.Strings(olds)
+	for _, n := range olds {
+		w("\tgovcOld_%s := govcClone(%s)\n\t_ = govcOld_%s\n", n, n, n)
+	}
+	var lhs []string
+	for i := 0; i < nres; i++ {
+		w("\tvar govcRet%d %s\n\t_ = govcRet%d\n", i, rtypes[i], i)
+		lhs = append(lhs, fmt.Sprintf("govcRet%d", i))
+	}
+	args := append([]string{}, t.pnames...)
+	callee := fn.Name()
+	if sig.Recv() != nil {
+		callee = t.pnames[0] + "." + fn.Name()
+		args = args[1:]
+	}
+	if sig.Variadic() && len(args) > 0 {
+		args[len(args)-1] += "..."
+	}
+	call := fmt.Sprintf("%s(%s)", callee, strings.Join(args, ", "))
+	if nres > 0 {
+		call = strings.Join(lhs, ", ") + " = " + call
+	}
+	w("\tgovcPanicked, govcPanic := false, any(nil)\n")
+	w("\tfunc() {\n\t\tdefer func() {\n\t\t\tif r := recover(); r != nil {\n\t\t\t\tgovcPanicked, govcPanic = true, r\n\t\t\t}\n\t\t}()\n\t\t%s\n\t}()\n", call)
+	switch t.mode {
+	case "panic", "pre":
+		w("\tif govcPanicked {\n\t\treturn true, fmt.Sprintf(\"call panicked: %%v\", govcPanic)\n\t}\n")
+		if t.mode == "pre" {
+			w("\treturn false, \"call returned normally (a violated callee precondition need not be observable)\"\n")
+		} else {
+			w("\treturn false, \"call returned normally\"\n")
+		}
+	case "assert":
+		w("\tif govcPanicked {\n\t\tif strings.Contains(fmt.Sprint(govcPanic), \"ghost assert failed\") {\n\t\t\treturn true, fmt.Sprintf(\"call panicked: %%v\", govcPanic)\n\t\t}\n")
+		w("\t\treturn false, fmt.Sprintf(\"call panicked with a different failure: %%v\", govcPanic)\n\t}\n")
+		w("\treturn false, \"call returned normally\"\n")
+	case "ensures", "contract":
+		if t.mode == "contract" {
+			w("\tif govcPanicked {\n\t\treturn true, fmt.Sprintf(\"call panicked: %%v\", govcPanic)\n\t}\n")
+		} else {
+			w("\tif govcPanicked {\n\t\treturn false, fmt.Sprintf(\"call panicked (a different failure than the postcondition): %%v\", govcPanic)\n\t}\n")
+		}
+		declared := map[string]bool{}
+		for _, n := range t.pnames {
+			declared[n] = true
+		}
+		bind := func(name string, i int) {
+			if name == "" || name == "_" || declared[name] {
+				return
+			}
+			declared[name] = true
+			w("\t%s := govcRet%d\n\t_ = %s\n", name, i, name)
+		}
+		var rn []string
+		if t.u.con != nil {
+			rn = t.u.con.resultNames(fn)
+		}
+		for i := 0; i < nres; i++ {
+			if i < len(rn) {
+				bind(rn[i], i)
+			}
+			bind(fmt.Sprintf("ret%d", i), i)
+		}
+		if nres == 1 {
+			bind("result", 0)
+		}
+		var resFmt, resArgs []string
+		for i := 0; i < nres; i++ {
+			resFmt = append(resFmt, "%v")
+			resArgs = append(resArgs, fmt.Sprintf("govcShow(govcRet%d)", i))
+		}
+		resDesc := "\"\""
+		if nres > 0 {
+			resDesc = fmt.Sprintf("fmt.Sprintf(\" results: %s\", %s)", strings.Join(resFmt, ", "), strings.Join(resArgs, ", "))
+		}
+		for _, e := range t.ens {
+			w("\tif govcHolds, govcEvalPanic := govcEval(func() bool { return %s }); govcEvalPanic != nil {\n", e.goExpr)
+			w("\t\treturn false, fmt.Sprintf(\"evaluating the postcondition %%s panicked: %%v\", %q, govcEvalPanic)\n", compact(e.text))
+			w("\t} else if !govcHolds {\n\t\treturn true, \"postcondition violated: \" + %q + %s\n\t}\n", compact(e.text), resDesc)
+		}
+		w("\treturn false, \"postcondition holds on this input\" + %s\n", resDesc)
+	}
+	w("}\n")
+	body := b.String()
+
+	var src strings.Builder
+	fmt.Fprintf(&src, "//go:build verif\n\n// Code generated by govc (counterexample replay). DO NOT EDIT.\n// %s\n\npackage %s\n\nimport (\n", strings.ReplaceAll(title, "\n", " "), t.pkg.Types.Name())
+	std := map[string]string{"fmt": "fmt", "reflect": "reflect", "strings": "strings", "testing": "testing", "unsafe": "unsafe"}
+	for p, n := range t.imports {
+		std[p] = n
+	}
+	var ipaths []string
+	for p := range std {
+		ipaths = append(ipaths, p)
+	}
+	sort.Strings(ipaths)
+	for _, p := range ipaths {
+		fmt.Fprintf(&src, "\t%s %q\n", std[p], p)
+	}
+	src.WriteString(")\n\n")
+	src.WriteString(replayHelpers)
+	src.WriteString("\n")
+	src.WriteString(body)
+	source := src.String()
+	f, err := format.Source([]byte(source))
+	if err != nil {
+		return source, "generated test is not syntactically valid Go: " + err.Error()
+	}
+	return string(f), ""
+}
+
+// runCandidates generates, runs and evaluates the test; fills the payload.
+func (t *rtarget) runCandidates(cands []*rcand, title, workdir string, payload map[string]any, note func(string, ...any)) bool {
+	source, serr := t.source(cands, title)
+	if serr != "" {
+		note("%s", serr)
+	}
+	payload["test_source"] = source
+	payload["test_pkgdir"] = t.pkgdir
+	cmdline, out, runErr := runReplayTest(t.absRepo, t.pkgdir, source, workdir, "replay")
+	payload["test_cmd"] = cmdline
+	payload["test_output"] = truncTail(out, 4000)
+	if runErr != "" {
+		note("%s", runErr)
+	}
+	rep, idx, detail, found := parseReplayLine(out)
+	if idx < 0 || idx >= len(cands) {
+		idx = 0
+	}
+	c := cands[idx]
+	payload["inputs"] = c.inputs
+	payload["model_rounds"] = c.log
+	for _, n := range c.notes {
+		note("%s", n)
+	}
+	if len(cands) > 1 {
+		payload["candidates_tried"] = len(cands)
+		if c.label != "" {
+			note("candidate %d of %d (%s)", idx+1, len(cands), c.label)
+		}
+	}
+	switch {
+	case found:
+		payload["replay_detail"] = detail
+		if rep {
+			note("reproduced on the real code: %s", detail)
+		} else {
+			note("not reproduced: %s", detail)
+		}
+		return rep
+	case strings.Contains(out, "[build failed]") || strings.Contains(out, "[setup failed]"):
+		note("the generated test does not compile; see test_output")
+	default:
+		note("the test binary did not report a result (crash or timeout); see test_output")
+	}
+	return false
+}
+
 // replayObligation turns a solver model into a Go test against the real code.
-func replayObligation(ctx *Ctx, u *Unit, ob *Obligation, cfg *SolverCfg, dir string) replayResult {
-	return replayResult{payload: map[string]any{"replay": "not attempted"}, reproduced: false}
+func replayObligation(ctx *Ctx, u *Unit, ob *Obligation, cfg *SolverCfg, dir string) (res replayResult) {
+	payload := map[string]any{"reproduced": false, "replay_note": ""}
+	res.payload = payload
+	var notes []string
+	note := func(format string, a ...any) { notes = append(notes, fmt.Sprintf(format, a...)) }
+	finish := func() replayResult {
+		payload["replay_note"] = strings.Join(notes, "; ")
+		payload["reproduced"] = res.reproduced
+		return res
+	}
+	defer func() {
+		if r := recover(); r != nil {
+			res.reproduced = false
+			notes = append(notes, fmt.Sprintf("replay aborted by internal error: %v", r))
+			finish()
+		}
+	}()
+	workdir := filepath.Join(dir, sanitize(ob.Name)+".replay")
+	if err := os.MkdirAll(workdir, 0o755); err != nil {
+		note("not attempted: %v", err)
+		return finish()
+	}
+	mode := replayKind(ob.Kind)
+	if mode == "" {
+		note("obligations of kind %q have no directly observable run-time effect: no direct replay", ob.Kind)
+		if indirectKind(ob.Kind) {
+			res.reproduced = replayIndirect(ctx, u, ob, cfg, workdir, payload, note)
+		}
+		return finish()
+	}
+	t, why := newTarget(ctx, u, mode)
+	if t == nil {
+		note("not attempted: %s", why)
+		return finish()
+	}
+	if mode == "ensures" {
+		cl := findEnsures(u.con, ob.Name)
+		if cl == nil {
+			note("not replayable: ensures clause of %s not found in the contract", ob.Name)
+			return finish()
+		}
+		if e := t.addEnsures(cl); e != "" {
+			note("not replayable: postcondition %q: %s", compact(cl.Text), e)
+			return finish()
+		}
+	}
+	for _, n := range t.notes {
+		note("%s", n)
+	}
+	exclude := map[string]bool{}
+	for attempt := 0; attempt < 2; attempt++ {
+		m := newRModel(u, ob, cfg, workdir)
+		m.exclude = exclude
+		c, why := t.candidate(m)
+		payload["model_rounds"] = m.log
+		if c == nil {
+			note("%s", why)
+			return finish()
+		}
+		n0 := len(notes)
+		res.reproduced = t.runCandidates([]*rcand{c}, "obligation: "+ob.Name, workdir, payload, note)
+		d, _ := payload["replay_detail"].(string)
+		if res.reproduced || !m.noquant || !strings.HasPrefix(d, "candidate input violates precondition") || attempt > 0 {
+			break
+		}
+		// the weakened query produced an input outside the precondition: use the full query
+		notes = append(notes[:n0], "a first candidate from the model-finding variant violated the precondition; retried with the full query")
+		exclude["nice_noquant"], exclude["noquant"] = true, true
+	}
+	return finish()
+}
+
+func truncTail(s string, n int) string {
+	if len(s) <= n {
+		return s
+	}
+	// keep the head (compile errors) and the tail (result line)
+	return s[:n/2] + "\n...[truncated]...\n" + s[len(s)-n/2+20:]
+}
+
+var replayLineRe = regexp.MustCompile(`(?m)GOVC-REPLAY: reproduced=(true|false) detail=(.*)$`)
+var replayCandRe = regexp.MustCompile(`^\[candidate (\d+)\] `)
+
+func parseReplayLine(out string) (reproduced bool, cand int, detail string, found bool) {
+	m := replayLineRe.FindStringSubmatch(out)
+	if m == nil {
+		return false, 0, "", false
+	}
+	detail = strings.TrimSpace(m[2])
+	if cm := replayCandRe.FindStringSubmatch(detail); cm != nil {
+		cand, _ = strconv.Atoi(cm[1])
+		detail = detail[len(cm[0]):]
+	}
+	return m[1] == "true", cand, detail, true
+}
+
+// runReplayTest runs the generated test through a build overlay: nothing is written
+// into the repository. Other _test.go files of the package are masked so that they
+// can neither break the build nor run their TestMain.
+func runReplayTest(absRepo, pkgdir, source, workdir, tag string) (cmdline, output, errNote string) {
+	workdir, _ = filepath.Abs(workdir)
+	testPath := filepath.Join(workdir, tag+"_test.go.txt")
+	ovPath := filepath.Join(workdir, tag+"_overlay.json")
+	if err := os.WriteFile(testPath, []byte(source), 0o644); err != nil {
+		return "", "", "cannot write test file: " + err.Error()
+	}
+	repl := map[string]string{filepath.Join(absRepo, filepath.FromSlash(pkgdir), replayTestFile): testPath}
+	if ents, err := os.ReadDir(filepath.Join(absRepo, filepath.FromSlash(pkgdir))); err == nil {
+		for _, e := range ents {
+			if !e.IsDir() && strings.HasSuffix(e.Name(), "_test.go") && e.Name() != replayTestFile {
+				repl[filepath.Join(absRepo, filepath.FromSlash(pkgdir), e.Name())] = ""
+			}
+		}
+	}
+	ov, _ := json.MarshalIndent(map[string]any{"Replace": repl}, "", " ")
+	if err := os.WriteFile(ovPath, ov, 0o644); err != nil {
+		return "", "", "cannot write overlay: " + err.Error()
+	}
+	cmdline = fmt.Sprintf("ulimit -v 8000000; go test -tags verif -overlay %s -vet=off -count=1 -timeout 60s -v -run '^TestGovcReplay$' ./%s", shellQuote(ovPath), pkgdir)
+	ctx, cancel := context.WithTimeout(context.Background(), 15*time.Minute)
+	defer cancel()
+	cmd := exec.CommandContext(ctx, "bash", "-c", cmdline)
+	cmd.Dir = absRepo
+	env := []string{}
+	for _, e := range os.Environ() {
+		k := strings.SplitN(e, "=", 2)[0]
+		switch k {
+		case "GOFLAGS", "GOPROXY", "GOSUMDB", "GOTOOLCHAIN", "PWD":
+			continue
+		}
+		env = append(env, e)
+	}
+	cmd.Env = append(env, "GOFLAGS=-mod=mod", "GOPROXY=off", "GOSUMDB=off", "GOTOOLCHAIN=local", "PWD="+absRepo)
+	var buf bytes.Buffer
+	cmd.Stdout = &buf
+	cmd.Stderr = &buf
+	err := cmd.Run()
+	output = buf.String()
+	if ctx.Err() != nil {
+		errNote = "go test did not finish within 15 minutes"
+	} else if err != nil {
+		if _, ok := err.(*exec.ExitError); !ok {
+			errNote = "cannot run go test: " + err.Error()
+		}
+	}
+	return cmdline, output, errNote
+}
+
+func shellQuote(s string) string {
+	return "'" + strings.ReplaceAll(s, "'", `'\''`) + "'"
+}
+
+// cmdReplay: govc replay -file <replay.json> [-repo dir]; exit 1 if the failure is reproduced.
+func cmdReplay(args []string) {
+	fs := flag.NewFlagSet("replay", flag.ExitOnError)
+	file := fs.String("file", "", "replay JSON file written by govc prop")
+	repo := fs.String("repo", "/repo", "repository")
+	fs.Parse(args)
+	if *file == "" {
+		fmt.Fprintln(os.Stderr, "usage: govc replay -file <replay.json> [-repo dir]")
+		os.Exit(2)
+	}
+	data, err := os.ReadFile(*file)
+	if err != nil {
+		fmt.Fprintln(os.Stderr, err)
+		os.Exit(2)
+	}
+	var rec map[string]any
+	if err := json.Unmarshal(data, &rec); err != nil {
+		fmt.Fprintln(os.Stderr, "replay json:", err)
+		os.Exit(2)
+	}
+	source, _ := rec["test_source"].(string)
+	pkgdir, _ := rec["test_pkgdir"].(string)
+	if source == "" || pkgdir == "" {
+		fmt.Fprintf(os.Stderr, "%s has no replay test (replay_note: %v)\n", *file, rec["replay_note"])
+		os.Exit(2)
+	}
+	absRepo, err := filepath.Abs(*repo)
+	if err != nil {
+		fmt.Fprintln(os.Stderr, err)
+		os.Exit(2)
+	}
+	workdir, err := os.MkdirTemp("", "govc-replay")
+	if err != nil {
+		fmt.Fprintln(os.Stderr, err)
+		os.Exit(2)
+	}
+	fmt.Printf("obligation: %v\nproperty:   %v\n", rec["obligation"], rec["property"])
+	if tg, ok := rec["replay_target"]; ok {
+		fmt.Printf("target:     %v\n", tg)
+	}
+	if in, ok := rec["inputs"].(map[string]any); ok {
+		for _, k := range sortedKeys(in) {
+			fmt.Printf("input %s = %v\n", k, in[k])
+		}
+	}
+	cmdline, out, errNote := runReplayTest(absRepo, pkgdir, source, workdir, "replay")
+	os.RemoveAll(workdir)
+	fmt.Println("$", cmdline)
+	fmt.Print(out)
+	if errNote != "" {
+		fmt.Println(errNote)
+	}
+	rep, _, detail, found := parseReplayLine(out)
+	if !found {
+		fmt.Println("replay: no result (build failure, crash or timeout)")
+		os.Exit(2)
+	}
+	fmt.Printf("replay: reproduced=%v (%s)\n", rep, detail)
+	if rep {
+		os.Exit(1)
+	}
 }
